@@ -26,11 +26,11 @@ def gen_cases(tier, seed):
     cases = []
     classes = ["lowrank", "fullrank", "rankone", "scaled", "blocks", "eri"]
     for cl in classes:
-        for rep in range(10 if q else 80):
+        for rep in range(10 if q else 600):
             cases.append({"type": "numpy", "class": cl, "s": int(rng.integers(1 << 30)),
                           "thr": float(10.0 ** (-int(rng.integers(3, 11)))), "group": "np"})
     for cl in ["lowrank", "fullrank", "rankone", "eri", "scaled", "tiny", "scaledfull"]:
-        for rep in range(6 if q else 40):
+        for rep in range(6 if q else 250):
             cases.append({"type": "jax", "class": cl, "s": int(rng.integers(1 << 30)), "n": int(rng.integers(2, 9)),
                           "group": "jax-%d" % (rep % 8), "cost": 3})
     mols = ["h2", "h4", "lih"] if q else ["h2", "h4", "lih", "h4ring", "h2-631g", "h4-631g", "oh"]
